@@ -89,11 +89,11 @@ func (l Layout) PageBytes(r uint32, c Content) []byte {
 		}
 		b[18], b[19] = ver, ver
 		b[20], b[21], b[22], b[23] = 0, 64, 32, 32
-		binary.BigEndian.PutUint32(b[24:], uint32(c.V))          // change counter
-		binary.BigEndian.PutUint32(b[28:], l.Real(c.Sz))         // size in (real) pages
-		binary.BigEndian.PutUint32(b[40:], uint32(c.V))          // schema cookie
-		binary.BigEndian.PutUint32(b[92:], uint32(c.V))          // version-valid-for
-		binary.BigEndian.PutUint32(b[96:], 3039000)              // sqlite version
+		binary.BigEndian.PutUint32(b[24:], uint32(c.V))            // change counter
+		binary.BigEndian.PutUint32(b[28:], l.Real(c.Sz))           // size in (real) pages
+		binary.BigEndian.PutUint32(b[40:], uint32(c.V))            // schema cookie
+		binary.BigEndian.PutUint32(b[92:], uint32(c.V))            // version-valid-for
+		binary.BigEndian.PutUint32(b[96:], 3039000)                // sqlite version
 		binary.BigEndian.PutUint32(b[100:], uint32(c.Sz)|0xA5<<24) // model size, for decoding
 		return b
 	}
